@@ -63,6 +63,38 @@ class State(object):
         self.conj = [z3.BoolVal(False)]
         self._pc = None
 
+    def known(self, c):
+        """True / False if `c` (or its negation) is syntactically one of the path-condition conjuncts, else None."""
+        neg = c.arg(0) if z3.is_not(c) else None
+        for x in self.conj:
+            if x.eq(c):
+                return True
+            if neg is not None and x.eq(neg):
+                return False
+            if z3.is_not(x) and x.arg(0).eq(c):
+                return False
+        if z3.is_and(c):
+            rs = [self.known(ch) for ch in c.children()]
+            if all(r is True for r in rs):
+                return True
+            if any(r is False for r in rs):
+                return False
+        return None
+
+    def resolve(self, v):
+        """Strip top-level If nodes whose condition is decided by the path condition."""
+        for _ in range(50):
+            if z3.is_app(v) and v.decl().kind() == z3.Z3_OP_ITE:
+                k = self.known(v.arg(0))
+                if k is True:
+                    v = v.arg(1)
+                    continue
+                if k is False:
+                    v = v.arg(2)
+                    continue
+            break
+        return v
+
     def guard(self, c):
         c = simp(c)
         if z3.is_true(c):
@@ -123,9 +155,6 @@ def join2(c, s1, s2):
     c1, c2 = simp(_conj(t1)), simp(_conj(t2))
     both = simp(z3.Or(c1, c2))
     sel = c1
-    # pick the smaller discriminator
-    if len(str(c2)) < len(str(c1)) and False:
-        sel = z3.Not(c2)
     frames = {}
     for fid in set(s1.frames) | set(s2.frames):
         f1, f2 = s1.frames.get(fid, {}), s2.frames.get(fid, {})
